@@ -180,3 +180,22 @@ Fixpoint blob_stmt_rules (ss : list stmt) (seen : list string) (found_global : b
 
 Definition blob_rules (d : doc) : list errc :=
   version_rules d ++ blob_stmt_rules (d_stmts d) [] false.
+
+(* --- pinned behaviour of the three regular expressions of Generated.v ---
+   The regular expressions define "file-name-safe" and "valid repository
+   path"; these lists pin what they must accept and reject, so that an edit of
+   a regular expression in the source that changes the verdict on any of these
+   strings breaks theorem C09_pinned_strings. *)
+Definition pinned_good_scopes : list string :=
+  ["*"; "registry.acme-rockets.io/software/net-monitor"; "localhost:5000/a"; "a/b"; "example.com/a/b_c";
+   "10.0.0.1:80/x"; "reg.io/a__b"; "reg.io/a-b"; "reg.io/a.b"; "reg.io/a---b"; "Reg-1.IO/x/y/z"; "r/0";
+   "local/oci"; "ghcr.io/o/r"].
+Definition pinned_bad_scopes : list string :=
+  [""; "noslash"; "/repo"; "domain/"; "domain.com/Repo"; "dom_ain/repo"; "reg.io/a:tag"; "reg.io/a@sha256:x";
+   "reg.io//a"; "reg.io/a/"; "-dom/a"; "dom-/a"; "reg.io/a..b"; "reg.io/a_.b"; "https://reg.io/a";
+   "reg.io:port/a"; "reg.io:/a"; "reg.io/a b"; "reg..io/a"; "reg.io/a___b"; "reg.io/-a"; "reg.io/a-";
+   "reg.io/*"; "*/*"; "**"; "*/a"; "reg.io/a*"; "* "; " a/b"; "a/b "; "a/B"; ".a/b"; "a./b"; "a/.b"; "a/b."].
+Definition pinned_good_names : list string :=
+  ["valid-ts"; "store_1"; "a"; "A.b-c_d"; "..."; "-"; "_"; "0"; ".a"; "a."; "..a"; "acme-rockets"].
+Definition pinned_bad_names : list string :=
+  ["."; ".."; ""; "a/b"; "../x"; "a b"; "a:b"; "a\b"; "a*"; "/"; "./a"; "a/.."; " a"; "a "; "a~"; "a+b"; "a,b"; "a@b"].
